@@ -125,4 +125,3 @@ def ctl_history(draw, ncyc: int):
         e = [int(draw(st.integers(0, 7)) < w) for w in we]
         out.append((c, e))
     return out
-
